@@ -272,23 +272,29 @@ func (v *Validator) UpdateDelegationFrom(d *DelegationFrom) (flag params.CurdFla
 			return params.Noop
 		}
 		//add new
-		v.Delegations = append(v.Delegations, d)
-		if i < oldLen {
-			copy(v.Delegations[i+1:], v.Delegations[i:oldLen])
-			v.Delegations[i] = d
-		}
+		// Always build a fresh slice: PartialCopy shares the Delegations slice with the
+		// old validator object kept in the journal, which must not be written through.
+		dlgs := make(DelegationFroms, oldLen+1)
+		copy(dlgs, v.Delegations[:i])
+		dlgs[i] = d
+		copy(dlgs[i+1:], v.Delegations[i:oldLen])
+		v.Delegations = dlgs
 		return params.Create
 	} else {
 		// already exist
 		if empty {
 			// delete
-			copy(v.Delegations[i:oldLen-1], v.Delegations[i+1:])
-			v.Delegations[oldLen-1] = nil
-			v.Delegations = v.Delegations[:oldLen-1]
+			dlgs := make(DelegationFroms, oldLen-1)
+			copy(dlgs, v.Delegations[:i])
+			copy(dlgs[i:], v.Delegations[i+1:])
+			v.Delegations = dlgs
 			return params.Delete
 		}
-		//update directly
-		v.Delegations[i] = d
+		//update
+		dlgs := make(DelegationFroms, oldLen)
+		copy(dlgs, v.Delegations)
+		dlgs[i] = d
+		v.Delegations = dlgs
 		return params.Update
 	}
 }
